@@ -68,8 +68,11 @@ class Runner:
             return
         a = self.ep.action(self.k)
         self.k += 1
-        _, r, done, info = self.ep.env.step(a)
-        self.outs.append(_snap_step(self.ep, (r, done, info)))
+        obs, r, done, info = self.ep.env.step(a)
+        snap = _snap_step(self.ep, (r, done, info))
+        if isinstance(obs, dict):
+            snap["observation"] = [obs[k] for k in sorted(obs) if isinstance(obs[k], (int, float, SymReal))]
+        self.outs.append(snap)
 
     def run_all(self, max_steps=None):
         self.reset()
@@ -233,6 +236,7 @@ VARIANTS = {
     "stateful-reward": dict(sym_prices=True, stateful_reward=True),
     "feature": dict(sym_prices=True, feature=True),
     "state-history": dict(sym_prices=True, state_history=True),
+    "passive-feature": dict(sym_prices=True, passive_feature=True),
     "future": dict(sym_prices=True, contract="future", t_lo=(2030, 1, 1), t_hi=(2030, 5, 1)),
     "chain": dict(sym_prices=True, contract="chain", t_lo=(2030, 2, 20), t_hi=(2030, 3, 14)),
 }
@@ -249,7 +253,8 @@ def configs(tier):
         cfg["id"] = "C10/" + variant + "," + ",".join("%s=%s" % kv for kv in sorted(kw.items()))
         out.append(cfg)
 
-    quick_variants = ["spot", "spot-fees-latency", "spot-delay", "feature", "state-history", "future", "stateful-reward"]
+    quick_variants = ["spot", "spot-fees-latency", "spot-delay", "feature", "state-history", "passive-feature", "future",
+                      "stateful-reward"]
     for v in quick_variants:
         for scen in ("repeat", "abandon", "error", "fresh"):
             add(v, scenario=scen)
